@@ -159,6 +159,10 @@ class AmbigGen:
                 filed = filed.replace("int %s;" % T, "int (*%s)(int);" % T)
                 blockd = blockd.replace("int %s = 1;" % T, "int (*%s)(int) = g;" % T)
                 param = param.replace("int %s" % T, "int (*%s)(int)" % T)
+        elif form == "callparen3":
+            s = "%s (((%s)));" % (T, x)
+            if not is_type:
+                return None
         else:
             s = "%s ((%s));" % (T, x)
             if not is_type:
@@ -252,7 +256,7 @@ class AmbigGen:
                     c = self.suffix_case(form, ctx, how)
                     if c:
                         out.append(c)
-        for form in ("mul", "call", "callparen"):
+        for form in ("mul", "call", "callparen", "callparen3"):
             for ctx in STMT_CONTEXTS:
                 for how in self.HOWS:
                     for pre in (False, True):
